@@ -256,12 +256,11 @@ func (vc *VC) execInstr(fr *Frame, st *State, pc string, in ssa.Instruction) {
 			vc.assume(pc, fmt.Sprintf("(=> (not (= %s 0)) (= (dyntype %s) %d))", x.S, x.S, tag))
 			fr.vals[t] = Sym{T: Term{S: x.S, Sort: SInt, T: t.Type()}}
 		default:
-			// boxed non-pointer value: opaque non-nil interface whose content is remembered per sort
-			n := vc.fresh("iface", SInt)
+			// boxed non-pointer value: an injective function of (dynamic type, value), so that boxing equal
+			// values twice yields equal interface values (interface comparison compares type and value)
 			tag := vc.eng.typeTag(t.X.Type())
-			vc.emit(fmt.Sprintf("(assert (and (not (= %s 0)) (= (dyntype %s) %d)))", n, n, tag))
-			bx := vc.boxFn(x.Sort)
-			vc.emit(fmt.Sprintf("(assert (= (%s %s) %s))", bx, n, x.S))
+			bf := vc.boxCtor(x.Sort)
+			n := vc.define("iface", SInt, fmt.Sprintf("(%s %d %s)", bf, tag, x.S))
 			fr.vals[t] = Sym{T: Term{S: n, Sort: SInt, T: t.Type()}}
 		}
 	case *ssa.TypeAssert:
@@ -388,6 +387,19 @@ func (vc *VC) execInstr(fr *Frame, st *State, pc string, in ssa.Instruction) {
 	default:
 		vc.unsup("instruction %T in %s", in, fr.fn)
 	}
+}
+
+// boxCtor declares box!sort : (tag, value) -> interface reference, with its inverse and type tag.
+func (vc *VC) boxCtor(sort string) string {
+	name := q("box!" + sort)
+	if !vc.declared[name] {
+		vc.declared[name] = true
+		ub := vc.boxFn(sort)
+		vc.emit("(declare-fun " + name + " (Int " + sort + ") Int)")
+		vc.emit(fmt.Sprintf("(assert (forall ((t Int) (v %s)) (! (and (= (%s (%s t v)) v) (= (dyntype (%s t v)) t) (not (= (%s t v) 0)) (= (refkind (%s t v)) (- 7))) :pattern ((%s t v)))))",
+			sort, ub, name, name, name, name, name))
+	}
+	return name
 }
 
 func (vc *VC) boxFn(sort string) string {
